@@ -289,6 +289,24 @@ func CondEdges(fn *ssa.Function, match func(a Atom) (bool, bool)) (edges map[Edg
 		a := Decompose(ifi.Cond)
 		m, whenTrue := match(a)
 		if !m {
+			// the same condition with variables kept in local cells (the function has a defer or a closure)
+			// replaced by the value stored last
+			if rc := ResolveCellLoad(ifi.Cond); rc != ifi.Cond {
+				a = Decompose(rc)
+				m, whenTrue = match(a)
+			}
+			if !m {
+				ra := Atom{Base: ResolveCellLoad(a.Base), Op: a.Op, Neg: a.Neg}
+				if a.Other != nil {
+					ra.Other = ResolveCellLoad(a.Other)
+				}
+				if ra.Base != a.Base || ra.Other != a.Other {
+					a = ra
+					m, whenTrue = match(a)
+				}
+			}
+		}
+		if !m {
 			continue
 		}
 		n++
@@ -403,7 +421,7 @@ func Reach(q Query) (found bool, trace []*ssa.BasicBlock, hit ssa.Instruction) {
 }
 
 // IsReturn matches normal return instructions.
-func IsReturn(in ssa.Instruction) bool { _, ok := in.(*ssa.Return); return ok }
+func IsReturn(in ssa.Instruction) bool { _, ok := AsReturn(in); return ok }
 
 // TraceString renders a block trace with the source lines of branch points.
 func (p *Prog) TraceString(tr []*ssa.BasicBlock) string {
